@@ -34,7 +34,7 @@ pub struct Sc {
 
 pub struct C06;
 
-const BASES: [&str; 6] = ["foo", "bar", "foo-bar", "fo", "baz", "f"];
+const BASES: [&str; 12] = ["foo", "bar", "foo-bar", "fo", "baz", "f", "fox-bar", "fxo", "ber", "ab", "ad", "bar-bar"];
 const VERSIONS: [&str; 112] = [
     // a component saturated to i64::MAX meeting a negative modifier or a small number at the same position
     "1.99999999999999999999", "1.alpha", "1.beta1", "1.rc", "1.pre2", "1.5", "1.9223372036854775807", "1.0", "1alpha", "199999999999999999999",
@@ -62,6 +62,19 @@ fn gen_pattern(rng: &mut Rng) -> String {
         // globs whose only metacharacter is a '?' or a bracket set, not in first position
         16 => rng.pick_str(&["foo-?.0", "fo?-1.0", "foo-1.?", "foo-1.0nb?"]).to_string(),
         17 => rng.pick_str(&["foo-[0-9].0", "foo-1.[0-9]", "foo-[12].0", "fo[o]-1.0", "foo-[!2].0"]).to_string(),
+        // groups nested inside alternatives, several groups, empty alternatives
+        11 if rng.chance(1, 2) => rng
+            .pick_str(&[
+                "{foo,ba{r,z}}-[0-9]*",
+                "{foo{,-bar},baz}-[0-9]*",
+                "fo{o,{o,x}-bar}>=1.0",
+                "{foo,bar}{,-bar}-[0-9]*",
+                "{f{o,x}o,b{a,e}{r,z}}-1.0",
+                "{a{b,c},d}-1.0",
+                "{foo,{bar,{baz,f}}}*",
+                "{foo,bar}-{1,2}.0",
+            ])
+            .to_string(),
         12 => "foo*".to_string(),
         13 => "*".to_string(),
         14 => "fo?*".to_string(),
@@ -346,15 +359,38 @@ fn version_cmp_model(a: &str, b: &str) -> Option<std::cmp::Ordering> {
 
 fn model_matches(pattern: &str, name: &str) -> Option<bool> {
     if pattern.contains(['{', '}']) {
-        // one level of groups only
+        // csh-style expansion: the first '{' and its matching '}' (found by depth)
+        // delimit a group; its alternatives are separated by the commas at the
+        // group's own depth; empty alternatives allowed; nested groups expanded
+        // in the substituted strings
         let open = pattern.find('{')?;
-        let close = open + pattern[open..].find('}')?;
-        if pattern[open + 1..close].contains('{') || pattern[..open].contains('}') {
+        if pattern[..open].contains('}') {
             return None;
         }
+        let mut depth = 0usize;
+        let mut close = None;
+        let mut cuts: Vec<usize> = Vec::new();
+        for (i, c) in pattern.char_indices().skip_while(|(i, _)| *i < open) {
+            match c {
+                '{' => depth += 1,
+                '}' => {
+                    depth = depth.checked_sub(1)?;
+                    if depth == 0 {
+                        close = Some(i);
+                        break;
+                    }
+                }
+                ',' if depth == 1 => cuts.push(i),
+                _ => {}
+            }
+        }
+        let close = close?;
+        cuts.push(close);
         let mut undecided = false;
-        for alt in pattern[open + 1..close].split(',') {
-            let exp = format!("{}{}{}", &pattern[..open], alt, &pattern[close + 1..]);
+        let mut from = open + 1;
+        for cut in cuts {
+            let exp = format!("{}{}{}", &pattern[..open], &pattern[from..cut], &pattern[close + 1..]);
+            from = cut + 1;
             match model_matches(&exp, name) {
                 Some(true) => return Some(true),
                 Some(false) => {}
